@@ -101,7 +101,8 @@ Inductive label :=
 | LStop (r : nat)              (* env: somebody calls r.Stop() *)
 | LPurge (r : nat)             (* env: PurgeCache(ctx of r) *)
 | LTimer (n : nat)             (* env: the timer of InvalidateAfter resource n fires: go n.invalidate() *)
-| LOutside (slot : nat).       (* env: AddDependency(context.Background(), the slot's resource): no computation registers *)
+| LOutside (slot : nat)        (* env: AddDependency(context.Background(), the slot's resource): no computation registers *)
+| LCancel (r : nat).           (* env: the context the rerunner was created with is cancelled (without Stop) *)
 
 (** ** accessors *)
 Definition getr (s : state) (r : nat) : rr := nth r (s_rrs s) drr.
@@ -483,6 +484,8 @@ Definition step (s : state) (l : label) : option state :=
       else None
   | LOutside sl =>
       if Nat.ltb sl (length (s_slots s)) then Some (spawn s [[FOutAdd (slot_res s sl)]]) else None
+  | LCancel r =>
+      if Nat.ltb r (length (s_rrs s)) then Some (with_rr s r (set_cancel (getr s r))) else None
   end.
 
 Fixpoint run (s : state) (ls : list label) : option state :=
